@@ -21,6 +21,8 @@ EXPLANATION = (
     "(NONEMPTY) the first-character unwrap_unchecked relies on 'a sentence has at least one character' (R05.4); "
     "(ACCUM) accumulated-offset sites of the line-break and grapheme filters are listed as assumptions, not decided."
 )
+THOROUGH_CONFIGS = [C.NO_CHARWISE, C.NO_CACHE, C.NO_FIX]
+QUICK_CONFIGS = [C.NO_CHARWISE, C.NO_CACHE, C.NO_FIX]
 NOT_DECIDED = [
     "accumulated byte/character offsets in SplitLinebreaksFilter and ConcatGraphemeClustersFilter (numeric, induction over the loop)",
     "daachorse's contract: 1 <= end <= haystack.len() on a character boundary, value = pattern index",
@@ -91,16 +93,25 @@ def run(chk):
     chk.rule("R14.1", "encode/decode sequences of the hand-written codecs agree (shared with C14)")
     chk.rule("R14.2", "automaton serialize <-> deserialize_unchecked (shared with C14)")
     chk.floor("R14.1", "hand-written codec pairs", c14.pairs(chk, w), 7, other=5)
+    # feature configurations of crate vaporetto alone (thorough tier): the same table, restricted to the functions that exist
+    # there; without charwise-pma the character automaton is the byte-wise one
+    ws = chk.config == "W"
+    table = TABLE if ws else {(f, c.replace("CharwiseDoubleArrayAhoCorasick", "DoubleArrayAhoCorasick")): v for (f, c), v in TABLE.items()}
     inv = {}
     raw = []
+    present = set()
     for bd in w.all_bodies():
         if bd.promoted is not None:
             continue
+        present.add(short_fn(bd.fn))
         for bb, t in cfgmod.calls(bd):
             if t["callee"].get("unsafe") and not t.get("exp"):
-                inv.setdefault((short_fn(bd.fn), short_callee(cfgmod.callee(t))), []).append((bd, bb))
+                cal = short_callee(cfgmod.callee(t))
+                if not ws:
+                    cal = cal.replace("CharwiseDoubleArrayAhoCorasick", "DoubleArrayAhoCorasick")
+                inv.setdefault((short_fn(bd.fn), cal), []).append((bd, bb))
     for key, sites in sorted(inv.items()):
-        ent = TABLE.get(key)
+        ent = table.get(key)
         bd, bb = sites[0]
         if ent is None:
             chk.ob("R18.2", "inventory:%s->%s" % key, False,
@@ -109,13 +120,14 @@ def run(chk):
             chk.ob("R18.2", "inventory:%s->%s" % key, len(sites) == ent[0],
                    "%s contains %d unsafe `%s` site(s), the reviewed table records %d (obligation %s)" % (key[0], len(sites), key[1], ent[0], ent[1]), site=C.site(bd, bb),
                    sample={"fn": key[0], "callee": key[1], "sites": len(sites), "obligation": ent[1]} if len(chk.samples) < 12 else None)
-    missing = [k for k in TABLE if k not in inv]
+    missing = [k for k in table if k not in inv and (ws or k[0] in present)]
     chk.ob("R18.2", "inventory:table-entries-present", not missing, "table entries no longer found in the program (stale table / lost anchors): %s" % missing)
-    chk.floor("R18.2", "unsafe operations", sum(len(v) for v in inv.values()), 40)
+    chk.floor("R18.2", "unsafe operations", sum(len(v) for v in inv.values()), 40 if ws else 18)
     for bd, bb, what in raw:
         chk.ob("R18.2", "raw:%s" % short_fn(bd.fn), False, "%s in %s: not covered by any reviewed obligation" % (what, bd.fn), site=C.site(bd, bb))
     unsafe_fns = sorted(p for c in w.crates.values() for p, f in c.fns.items() if f["unsafe"])
-    chk.ob("R18.2", "unsafe-fns", len(unsafe_fns) == 7, "unsafe fns declared in the workspace: %s (7 reviewed)" % unsafe_fns, sample={"unsafe_fns": unsafe_fns})
+    if ws:
+        chk.ob("R18.2", "unsafe-fns", len(unsafe_fns) == 7, "unsafe fns declared in the workspace: %s (7 reviewed)" % unsafe_fns, sample={"unsafe_fns": unsafe_fns})
 
     ob_strpos(chk, w)
     ob_weights(chk, w)
@@ -124,6 +136,9 @@ def run(chk):
     ob_deser(chk, w)
     # shared obligations
     c06.r063(chk, w)
+    if not ws:
+        # the remaining obligations live in code that does not depend on the scorer features (rules, trainer, writers)
+        return
     c15.wsconst(chk, w)
     # to_int_unchecked: the value must be finite (non-zero divisor); the 16-bit range itself (R11.6) is not a precondition
     with chk.only(rules={"R11.3"}):
@@ -209,10 +224,16 @@ def ob_strpos(chk, w):
                 ml = int(m.group(2))
                 # the match value comes from an iterator created by find_*_iter(pma, haystack)
                 for k, (ov, oo) in origin.items():
-                    s = forms.Normalizer(it, oo).value_atom(ov)
+                    nzo = forms.Normalizer(it, oo)
+                    s = nzo.value_atom(ov)
                     if "find_overlapping" in s:
-                        hay = s
-                ok = hay is not None and sent[0] == "ref" and ("&%s.text" % absint.pstr(sent[1])) in hay
+                        r_ = it.resolve(oo, ov)
+                        info = nzo.ret_info.get(r_[1]) if r_[0] == "sym" else None
+                        # the haystack argument itself: the whole text, possibly through a view (as_bytes / as_ref / deref);
+                        # a sub-slice (trimmed, skipped prefix) shifts every match offset against the byte->char map
+                        hay = nzo.value_atom(info[1][1]) if info and len(info[1]) > 1 else s
+                txt = re.escape("&%s.text" % absint.pstr(sent[1])) if sent[0] == "ref" else None
+                ok = hay is not None and txt is not None and re.fullmatch(r"(?:[^()]*::(?:as_ref|as_bytes|as_str|deref|borrow|bytes)\()*%s(?:\.<content>)?\)*" % txt, hay) is not None
             chk.ob("R18.2", "STRPOS:%s:argument" % short_fn(bd.fn), ok,
                    "%s passes `%s` to Sentence::str_to_char_pos; expected Match::start()/end() of a daachorse iterator over the same sentence's text (haystack %s)" % (bd.fn, arg, hay and hay[-60:]),
                    site=C.site(bd, e[1]), sample={"fn": bd.fn, "arg": arg})
